@@ -98,7 +98,10 @@ def concretize(model, v):
         for k, x in v.values.items():
             out['values'][k] = concretize(model, x)
         for k, f in v.funcs.items():
-            out['funcs'][k] = func_interp(model, getattr(f, 'uf', None))
+            if hasattr(f, 'calls'):
+                out['funcs'][k] = {'returns': [concretize(model, x) for x in f.calls]}
+            else:
+                out['funcs'][k] = func_interp(model, getattr(f, 'uf', None))
         return out
     if isinstance(v, E.MatchVal):
         return {'__match__': True, 'string': concretize(model, v.string), 'start': concretize(model, v.start),
